@@ -399,24 +399,42 @@ def eval_oracle(stream, case, r):
     try:
         return stream.oracle(case, r)
     except Exception as e:  # noqa: BLE001
-        tb = e.__traceback__
-        last = None
-        while tb is not None:
-            last = tb.tb_frame.f_code.co_filename
-            tb = tb.tb_next
-        src = os.path.join(os.path.realpath(REPO), "src") + os.sep
-        if last and os.path.realpath(last).startswith(src):
-            return f"the implementation raised {type(e).__name__} ({str(e)[:120]}) in {os.path.relpath(os.path.realpath(last), src)} while the property oracle exercised it on this case"
-        raise
+        what = raised_by_implementation(e, "the property oracle exercised it")
+        if what is None:
+            raise
+        return what
+
+
+def raised_by_implementation(e, doing):
+    """description when the innermost frame of the exception is inside $WZ_REPO/src, else None"""
+    tb = e.__traceback__
+    last = None
+    while tb is not None:
+        last = tb.tb_frame.f_code.co_filename
+        tb = tb.tb_next
+    src = os.path.join(os.path.realpath(REPO), "src") + os.sep
+    if last and os.path.realpath(last).startswith(src):
+        return f"the implementation raised {type(e).__name__} ({str(e)[:120]}) in {os.path.relpath(os.path.realpath(last), src)} while {doing} on this case"
+    return None
 
 
 def run_stream(stream, cases, driver, model_ok, stats):
     """returns (violations, disagreements)"""
     reals = [real_out(stream, c) for c in cases]
     lines, idx = [], []
+    pre_viol = []
     if model_ok:
         for i, c in enumerate(cases):
-            ml = stream.model_line(c)
+            try:
+                ml = stream.model_line(c)
+            except Exception as e:  # noqa: BLE001
+                # some streams drive the real code while preparing the model's input: the
+                # implementation raising there is an observation, a harness bug is not
+                what = raised_by_implementation(e, "the harness drove it to prepare the model's input")
+                if what is None:
+                    raise
+                pre_viol.append(Violation(stream.name, c, what, stream.finding_key(c, what)))
+                ml = None
             if ml is not None:
                 lines.append(ml)
                 idx.append(i)
@@ -425,7 +443,7 @@ def run_stream(stream, cases, driver, model_ok, stats):
         outs = driver.batch(lines)
         for i, o in zip(idx, outs):
             models[i] = stream.canon_model(cases[i], o)
-    violations, disagreements = [], []
+    violations, disagreements = pre_viol, []
     seen = stats.setdefault("seen", set())
     for i, c in enumerate(cases):
         r = reals[i]
